@@ -132,7 +132,10 @@ def compare(impl, model, op=None):
 
 
 def first_mismatch(case):
+    semantic = " sim=" in case["raw"][0] and " sim=1" not in case["raw"][0]
     for i, (a, b) in enumerate(zip(case["impl"], case["model"])):
+        if semantic and op_of(case["raw"][i]) in ("search", "bsearch") and a.startswith("ok"):
+            continue          # a similarity hit of the query cache answers with another query's entry (by design): not predicted
         if not compare(a, b, op_of(case["raw"][i])):
             return i
     if len(case["impl"]) != len(case["model"]):
@@ -324,6 +327,8 @@ def gen_case(rng, n_ops=40, focus="c10"):
     lims = {n: (rng.randint(2, 6) if focus == "c14" or rng.random() < 0.5 else rng.randint(6, 30)) for n in names}
     cfg = "cfg dim=%d tenants=%s,off:5:off,adm:50:admin cap=%d" % (
         dim, ",".join("%s:%d" % (n, lims[n]) for n in names), rng.choice([4, 64]) if focus == "c14" else 64)
+    if focus == "c10" and rng.random() < 0.25:
+        cfg += " sim=0.52"        # the default similarity threshold of the query cache: entries reused for similar queries
     ops = [cfg, "start"]
     ids = [1, 2, 3, 4, 5, 6] + ([4294967295] if rng.random() < 0.3 else [])
     odd = [0, 4294967296, 7]
